@@ -41,6 +41,7 @@ func init() {
 		fs.OptNat("defPer", 0, false, serverPath)
 		fs.Tri("islandCacheKeyedByN", Unknown, "")
 		fs.Tri("unroutedReturnsError", Unknown, "")
+		fs.Tri("pathCacheKeyedByArgs", Unknown, "")
 		for _, n := range []string{"routeLastWins", "routeLookupByIsland", "routeValidatesRanges"} {
 			fs.Tri(n, Unknown, "sdk/go/hydraidego/client/client.go")
 		}
@@ -92,6 +93,19 @@ func init() {
 			fs.Tri("islandCacheKeyedByN", No, srvPath)
 		} else if a == Yes && b == Yes {
 			fs.Tri("islandCacheKeyedByN", Yes, srvPath)
+		}
+		// ---- memoised path: `if n.HashPath != "" { return n.HashPath }` ignores the arguments
+		if fd := srv.Func("name", "GetFullHashPath"); fd != nil && fd.Body != nil {
+			for _, st := range fd.Body.List {
+				if is, ok := st.(*ast.IfStmt); ok && strings.Contains(srv.Str(is.Cond), `n.HashPath != ""`) && len(is.Body.List) == 1 && srv.Str(is.Body.List[0]) == "return n.HashPath" {
+					switch {
+					case srv.Str(is.Cond) == `n.HashPath != ""`:
+						fs.Tri("pathCacheKeyedByArgs", No, srvPath+":"+itoa(srv.Line(is)))
+					case srv.Str(is.Cond) == `n.HashPath != "" && n.hashPathFor == key` && srv.Contains(fd, `key := fmt.Sprintf("%s|%d|%d|%d", rootPath, islandID, depth, maxFoldersPerLevel)`) && srv.Contains(fd, "n.hashPathFor = key"):
+						fs.Tri("pathCacheKeyedByArgs", Yes, srvPath+":"+itoa(srv.Line(is)))
+					}
+				}
+			}
 		}
 		// ---- hashed path
 		c20Path(fs, srv, srvPath)
